@@ -24,7 +24,7 @@ TECHNIQUE = ('Hypothesis-generated histories (1-3 run() calls, trace counts / co
 RULE = ('case = (attack kind, precision, N per run in 1..80, container batch size int, convergence_step in {1, below/equal/above the batch size, above N, not dividing N}, 1..3 runs, integer-valued or real traces). '
         'Non-trivial = at least 2 convergence columns and (step does not divide the total, or several runs); distinct = digest of the case.')
 LEVEL_TEXT = ('Columns are compared with fresh prefix attacks (bit-exact for integer-valued data whose sums are exact; 1e-9 relative for real-valued data in float64; template scores, which sum float terms per batch, 1e-9 / 2e-4 relative in float64 / float32); the number of columns must equal the number of distinct points, points must be '
-              'strictly increasing, end at the total, be at least one step apart unless one of the two is an end-of-run total, the last column must equal the final scores, and results/scores must equal those of an attack '
+              'strictly increasing, end at the total, each be at least one step after the previous regular point unless it is the remainder at the end of a run, the last column must equal the final scores, and results/scores must equal those of an attack '
               'without convergence step. The largest gap between points is reported, not asserted (the statement gives no upper bound).')
 LEVEL_NOTE = 'trusted: a fresh attack run once on a prefix (C02/C03/C04 territory)'
 ASSUMPTIONS = [
@@ -44,7 +44,7 @@ def _build(case, convergence_step, log=None):
     def sf(plaintext, guesses):
         return ((plaintext[:, None, :] ^ guesses[None, :, None]) & mask).astype('uint8')
     model = {'value': scared.Value(), 'hw': scared.HammingWeight()}.get(case['model']) or scared.Monobit(int(case['model'][-1]))
-    kw = dict(selection_function=sf, model=model, precision=case['precision'], convergence_step=convergence_step)
+    kw = dict(selection_function=sf, model=model, precision=case.get('mia_precision') or case['precision'], convergence_step=convergence_step)
     name = {'cpa': 'CPAAttack', 'dpa': 'DPAAttack', 'anova': 'ANOVAAttack', 'nicv': 'NICVAttack', 'snr': 'SNRAttack', 'mia': 'MIAAttack', 'tdpa': 'TemplateDPAAttack'}[kind]
     cls = getattr(scared, name)
 
@@ -133,17 +133,21 @@ def _check(ctx, case):
         raise Violation('%s: %d convergence columns for %d distinct points %s (step %d, batch %d, run totals %s)' % (kind, conv.shape[-1], len(P), P, step, case['batch_size'], totals), case)
     if P[-1] != tot:
         raise Violation('%s: last convergence point %d is not the total number of traces %d' % (kind, P[-1], tot), case)
+    # spacing: a point is regular when it lies at least one step after the previous regular point; any other point must be the
+    # remainder at the end of a run (a remainder does not restart the count: the next regular point is still measured from the last regular one)
     ends = set(totals)
-    prev = 0
+    last_regular = 0
     for p in P:
-        if p - prev < step and p not in ends and prev not in ends:
-            raise Violation('%s: convergence points %d and %d are %d traces apart, less than the step %d, and neither is the end of a run (points %s, run totals %s)' % (kind, prev, p, p - prev, step, P, totals), case)
-        prev = p
+        if p - last_regular >= step:
+            last_regular = p
+        elif p not in ends:
+            raise Violation('%s: convergence point %d comes %d traces after the previous regular point %d, less than the step %d, and is not the end of a run (points %s, run totals %s)' % (
+                kind, p, p - last_regular, last_regular, step, P, totals), case)
     ctx.note_max('largest_gap_over_step', max((b - a) / step for a, b in zip([0] + P, P)))
     for j, p in enumerate(P):
-        if not np.array_equal(conv[..., j], first_scores[j].astype(conv.dtype), equal_nan=True):
+        if not np.array_equal(np.asarray(conv[..., j], dtype='float64'), np.asarray(first_scores[j], dtype='float64'), equal_nan=True):
             raise Violation('%s: convergence column %d is not the scores computed when %d traces had been processed' % (kind, j, p), case)
-    if not np.array_equal(conv[..., -1], np.asarray(an.scores).astype(conv.dtype), equal_nan=True):
+    if not np.array_equal(np.asarray(conv[..., -1], dtype='float64'), np.asarray(an.scores, dtype='float64'), equal_nan=True):
         raise Violation('%s: last convergence column differs from the final scores' % kind, case)
     # fresh attacks on prefixes
     idxs = list(range(len(P)))
@@ -157,7 +161,7 @@ def _check(ctx, case):
             warnings.simplefilter('ignore')
             fresh = _build(case, None)
             fresh.run(scared.Container(dist.ram_ths(samples=allx[:p], plaintext=allp[:p])))
-        if not _same(conv[..., j], np.asarray(fresh.scores).astype(conv.dtype), exact, rtol):
+        if not _same(np.asarray(conv[..., j], dtype='float64'), np.asarray(fresh.scores, dtype='float64'), exact, rtol):
             d = np.asarray(conv[..., j], dtype='float64') - np.asarray(fresh.scores, dtype='float64')
             raise Violation('%s (%s): convergence column %d (point %d of %s, step %d, batch %d) differs from the scores of a fresh attack on the first %d traces (max |diff| %s)' % (
                 kind, case['precision'], j, p, P, step, case['batch_size'], p, float(np.nanmax(np.abs(d))) if np.isfinite(d).any() else 'NaN pattern'), case)
@@ -215,6 +219,7 @@ def cases(draw, kind, precision):
     if kind in ('anova', 'nicv', 'snr', 'mia', 'tdpa'):
         case['partitions'] = list(range(vmax + 1))
     if kind == 'mia':
+        case['mia_precision'] = draw(st.sampled_from([None, 'uint32', 'uint32', 'int64']))     # MIA's precision is the dtype of its counters
         allx = np.concatenate([r['samples'] for r in runs], axis=0).astype('float64')
         lo = float(np.floor(allx.min()))
         w = max(1.0, float(np.ceil((allx.max() - lo) / 4)))
